@@ -130,8 +130,8 @@ def stepPool (k : Kind) (d : DS) (ws : List String) : DS × String :=
   | ["pop_timedwait"] => finPop (poolPop tbl k a .popTimedwait s 0)
   | ["pop_many", ctx, n] => match ctx.toNat?, n.toNat? with
     | some ctx, some n =>
-      -- pool_pop_threads_ex: `if (len > 0) …` — with len == 0 the out-parameter is left untouched
-      if n = 0 then (d, "pop_many untouched" ++ tail2 d.w i)
+      -- pool_pop_threads_ex: `if (len > 0) … else *num = 0` (the else branch is the repair of finding F12)
+      if n = 0 then (d, "pop_many 0:" ++ tail2 d.w i)
       else match poolPopMany tbl k a s n ctx with
         | some (s', us) =>
           let w := d.w.put i s'
